@@ -27,6 +27,7 @@ from __future__ import annotations
 
 import copy
 import json
+import time
 from typing import Any
 
 from ptverif import distcheck as dc
@@ -77,7 +78,8 @@ def programs(tier: str) -> tuple[list[dict], list[dict]]:
 
 def expected_of(skeletons: list[dict]) -> dict[str, dict]:
     """WellFormedInput evaluated by TLC on skeletons of the real DAGs."""
-    val = tlc.validate_records("DistWF", "DistWF.cfg", skeletons, timeout=1500, heap="3g")
+    val = tlc.validate_records("DistWF", "DistWF.cfg", skeletons, timeout=1500, heap="3g",
+                               env=dc.JVM)
     out = {}
     for rec in skeletons:
         det = json.loads(json.loads(val.detail[rec["id"]]))
@@ -161,10 +163,12 @@ def sig_of(prog: dict, clause: str, exp: dict) -> dict:
 
 def main(tier: str, only: list[dict] | None = None) -> int:
     run = Run(PROP, tier, "fault_enumeration")
+    t0 = time.time()
     if only is None:
         progs, gstats = programs(tier)
     else:
         progs, gstats = only, []
+    t1 = time.time()
     by_id = {p["id"]: p for p in progs}
     results = dc.process_all(progs, {"seed": seed(), "execute": False})
     for r in results:
@@ -172,8 +176,11 @@ def main(tier: str, only: list[dict] | None = None) -> int:
             run.violation(f"{r['id']}:hang", f"{r['id']}: a rank did not come back: {r['hang']}",
                           record={"prog": by_id[r["id"]]}, sig={"clause": "hang"})
     results = [r for r in results if not r.get("hang")]
+    t2 = time.time()
     exp = expected_of([dict(r["skeleton"], id=r["id"]) for r in results])
     wstats = exp.pop("__stats__")
+    run.coverage["phase_wall_s"] = {"generate": round(t1 - t0, 1), "real_code": round(t2 - t1, 1),
+                                    "tlc_wf": round(time.time() - t2, 1)}
     outcomes: dict[str, int] = {}
     by_fault: dict[str, int] = {}
     by_why: dict[str, int] = {}
